@@ -11,15 +11,17 @@ from . import common as C
 
 
 def run(seed, n, risky=False):
+    """risky: False | True (all four) | a list of risky trivia names (see gendoc.render.TriviaPlan.risky)"""
     os.makedirs(C.WORK, exist_ok=True)
     hb = hashlib.sha256(open(os.path.join(C.TOOLS, "harness"), "rb").read()).hexdigest()[:16]
-    cache = os.path.join(C.WORK, "gencheck_%s_%d_%d_%d.json" % (hb, seed, n, int(risky)))
+    rk = ",".join(risky) if isinstance(risky, (list, tuple)) else ("all" if risky else "none")
+    cache = os.path.join(C.WORK, "gencheck_%s_%d_%d_%s.json" % (hb, seed, n, hashlib.sha256(rk.encode()).hexdigest()[:8]))
     if os.path.exists(cache) and time.time() - os.path.getmtime(cache) < 1800:
         return json.load(open(cache))
     from .gendoc import selftest
     buf = io.StringIO()
     t0 = time.time()
-    argv = ["--n", str(n), "--seed", str(seed)] + (["--risky"] if risky else [])
+    argv = ["--n", str(n), "--seed", str(seed)] + (["--risky-only", rk] if isinstance(risky, (list, tuple)) else (["--risky"] if risky else []))
     with contextlib.redirect_stdout(buf):
         rc = selftest.main(argv)
     last = selftest.LAST or {}
